@@ -27,12 +27,14 @@ Inductive op :=
 | OFromInt (w:Z) (signed:bool)
 | OToInt (w:Z) (signed:bool) (m:rmode) (xflag:bool)
 | OLrint | OLround
-| OCmp | OOps | OHashEq | OHashSet
+| OCmp | OOps | OHashEq | OHashSet | OHashSliceEq
 | OParse | OFromStr | OFromStr2 | OFmt | OSerde | OSerdeDe | ONanTag | OMacro
 | OOpArith (o:op) | OOpNeg | OSum | OProduct
 | OConsts.
 
-Definition any_out (_ : list Z) : bool := true.
+(* "the returned values are not fixed by any property": any NON-EMPTY output list (an empty list is the observable form of
+   "no answer" and is accepted nowhere) *)
+Definition any_out (outs : list Z) : bool := negb (is_nil outs).
 
 (* modf of an infinity: (that infinity, a canonical zero of the same sign with any exponent) *)
 Definition modf_inf_ok (s:bool) (outs : list Z) : bool :=
@@ -61,6 +63,20 @@ Fixpoint fold_ops (o:op) (accs : list Z) (args : list Z) : list Z :=
   | [] => accs
   | a :: r => fold_ops o (flat_map (fun acc => flat_map (fun oc => fst oc) (arith2 o RNE acc a)) accs) r
   end.
+
+(* Hash::hash_slice (C20). Arguments [n; x1..xn; y1..yn]: two slices of n patterns each; output [same], same = 1 iff the
+   two slices fed identical word sequences to a recording Hasher. *)
+Definition hashslice_shape (n : Z) (l : list Z) : bool := (0 <=? n) && (Z.of_nat (length l) =? 2 * n).
+Fixpoint slices_eq (xs ys : list Z) : bool :=
+  match xs, ys with
+  | [], [] => true
+  | x :: xs', y :: ys' => m_eq (decode x) (decode y) && slices_eq xs' ys'
+  | _, _ => false
+  end.
+(* accept iff (pairwise equal values -> same hasher input) *)
+Definition m_hashslice (n : Z) (l : list Z) (same : Z) : bool :=
+  let k := Z.to_nat n in
+  if slices_eq (firstn k l) (skipn k l) then same =? 1 else true.
 
 Definition ZERO_BITS := encode (Fin false 0 0).
 Definition ONE_BITS := encode (Fin false 1 0).
@@ -120,6 +136,10 @@ Definition expected (o:op) (md:rmode) (args:list Z) : expect :=
   | OOps, [x; y] => Exact (m_ops x y)
   | OHashEq, [x; y] => Pred (fun outs => match outs with [same] => m_hasheq x y same | _ => false end) [0]
   | OHashSet, [x; y] => Exact [([b2z (m_eq (decode x) (decode y))], 0)]
+  | OHashSliceEq, n :: l =>
+      if hashslice_shape n l
+      then Pred (fun outs => match outs with [same] => m_hashslice n l same | _ => false end) [0]
+      else Exact []
   | OParse, l =>
       match m_parse md l with
       | SList ol => Exact ol
